@@ -636,3 +636,49 @@ def r6_completion_source(facts, rep):
         ok = err_t is not None and any(body.dominates(err_t, eb) for eb in errs)
         rep.check(ok, "R6", short, "Err-on-Err-arm", "the IoKindResult::Err arm does not produce an Err completion", site=s.get("ln"), detail="Err(os error) built on the IoKindResult::Err arm")
     return n
+
+
+def r6b_classifier(facts, rep):
+    """IoKind::get_result classifies a syscall result as Ok only under an equality test of its `res` parameter with a
+    non-negative constant (PAGE_SIZE, or 0 for a read at end of file): a negative or short result can never be `Ok`."""
+    body = facts.bodies.get("nomt::io::IoKind::get_result")
+    if body is None:
+        raise CheckBroken("ANCHOR-MISSING function nomt::io::IoKind::get_result")
+    short = "io::IoKind::get_result"
+    sites = []
+    for b in range(body.n):
+        for s in body.stmts(b):
+            if s["k"] == "assign" and s["rv"]["k"] == "agg" and s["rv"].get("name") == "nomt::io::IoKindResult" and s["rv"].get("variant") == "Ok":
+                sites.append((b, s))
+    rep.floor("R6 IoKindResult::Ok construction sites", len(sites), 1)
+
+    def eq_tests():
+        """true targets of every switch on Eq(res, C), C a constant in 0..=i64::MAX"""
+        out = []
+        for sb in range(body.n):
+            t = body.term(sb)
+            if t["k"] != "switch":
+                continue
+            for r in trace(body, t["d"]):
+                if r.kind != "binop" or r.obj.get("k") != "bin" or r.obj.get("op") != "Eq":
+                    continue
+                has_res, cst = False, None
+                for o in (r.obj["a"], r.obj["b"]):
+                    for r2 in trace(body, o):
+                        if r2.kind == "param" and r2.what == 2 and not r2.fields:
+                            has_res = True
+                        elif r2.kind == "const" and r2.obj is not None and r2.obj.get("int") is not None:
+                            cst = int(r2.obj["int"])
+                if has_res and cst is not None and 0 <= cst < (1 << 63):
+                    zero = [tb for (v, tb) in t["vals"] if v == "0"]
+                    if len(t["vals"]) == 1 and zero and t["else"] != zero[0]:
+                        out.append(t["else"])
+        return out
+
+    tests = eq_tests()
+    n = 0
+    for (b, s) in sites:
+        n += 1
+        ok = any(body.dominates(tgt, b) and len(body.preds()[tgt]) == 1 for tgt in tests)
+        rep.check(ok, "R6", short, "Ok-needs-exact-length", "IoKindResult::Ok is produced at a point that is not confined to `res == <expected length>`: a failed or short page I/O would be classified as success", site=s.get("ln"), detail="Ok only under res == const (>= 0)")
+    return n
